@@ -42,6 +42,9 @@ fn block_types() -> Vec<Query> {
         // sits - they compete with the party's blocks for the same UTxOs
         Query { address: None, ..q(vec![0], None, false) },
         Query { address: None, ..q(vec![], Some([None, Some(1), None]), false) },
+        // ... and one that also wants more lovelace than a token holder brings: what an earlier block took at the
+        // party's address lies outside this block's candidates and must stay outside
+        Query { address: None, ..q(vec![], Some([Some(3), Some(1), None]), true) },
     ]
 }
 
@@ -462,7 +465,7 @@ impl Prop for C04 {
     fn rule(&self, tier: Tier) -> String {
         format!(
             "complete product: every multiset store of <= 4 UTxOs at one address (lovelace 1..2 x T1 0..1) x every ordered tuple of k <= {} \
-             overlapping block types (11 types: single/many, lovelace / token thresholds, equal and overlapping refs, two without `from`: ref-only and token-only) x with/without collateral; \
+             overlapping block types (12 types: single/many, lovelace / token thresholds, equal and overlapping refs, three without `from`: ref-only, token-only, token + lovelace many) x with/without collateral; \
              every assignment of names to source positions (k <= 3); every iteration order of the candidate set of the first block and of the second block. \
              Oracle: pairwise disjoint selections (collateral exempt), every block sound w.r.t. what earlier blocks took, emitted input list = \
              union of selections without duplicates. Language level: programs with 2-3 input blocks named from [a, A, b, aB, Ab, collateral, Collateral, x] (every ordered pair / triple, \
